@@ -215,15 +215,29 @@ def _one(rng, fam, mon, sigs, hist):
             CTX.pop("cur", None)
         # system velocity per frame
         try:
+            from fv.oracle import fb
+            if rng.random() < 0.5:
+                # systems built earlier with an opening-angle limit must not decide which junctions are averaged now
+                for t in range(nfr):
+                    if rng.random() < 0.7:
+                        try:
+                            solver.build_force_matrix(when=t, angle_limit=float(rng.uniform(0.55, 0.95) * np.pi))
+                        except Exception:
+                            pass
+                hist["limited-build-before-system-velocity"] = hist.get("limited-build-before-system-velocity", 0) + 1
             sysv = solver.get_system_velocity_per_frame()
             for t in range(nfr):
                 fm = solver.force_matrices[t]
-                sp = [np.linalg.norm(mesh.calculate_velocity(vid, t)) for vid in fm.map_vid_to_row]
+                # the used junctions of the unrestricted system, from the generator's tissue (O-FB), not from the object
+                rt = s.rs[t]
+                used = [rt.jmap[j] for j in fb.used_junctions(rt.at, False, rt.ks)]
+                sp = [np.linalg.norm(mesh.calculate_velocity(vid, t)) for vid in used]
                 ref = float(np.mean(sp)) if sp else 1.0
                 mon.count("system-velocity:checked")
                 if abs(sysv[t] - ref) > 1e-12 * max(1.0, ref):
+                    same = sorted(used) == sorted(fm.map_vid_to_row)
                     mon.fail("system-velocity", "the frame's system velocity is the mean junction speed", t=t, got=float(sysv[t]),
-                             ref=ref)
+                             ref=ref, junction_set_as_expected=same)
         except Exception as exc:
             rest = any(fm2 is not None and len(fm2.map_vid_to_row) > 0 and
                        all(not np.any(np.asarray(mesh.calculate_velocity(v_, t2)) != 0) for v_ in fm2.map_vid_to_row)
